@@ -4,6 +4,7 @@ CONSTANTS
   BinOps <- AllBin
   UnOps <- AllUn
   MaxDepth = 2
+  FloorDiv = TRUE
 INVARIANT DivModLaw
 INVARIANT BitLaw
 INVARIANT ShiftLaw
